@@ -106,3 +106,44 @@ Fixpoint jsize (v : jval) : nat :=
   | JObj l => S (fold_right (fun kx a => (let '(_, x) := kx in jsize x) + a)%nat O l)
   | _ => 1%nat
   end.
+
+(* ---------------------------------------------------------------- RFC 8259 grammar (integers only; doubles are outside the model) *)
+Definition ws_char (c : Z) : Prop := c = 32 \/ c = 9 \/ c = 10 \/ c = 13.
+Definition ws (w : list Z) : Prop := Forall ws_char w.
+
+(* string items as RFC 8259 allows them: unescaped bytes are >= 0x20 *)
+Definition item_rfc (i : sitem) : Prop :=
+  item_ok i /\ match i with SRaw b => 32 <= b | _ => True end.
+
+(* int = [ minus ] ( zero / digit1-9 *DIGIT ), value within int64 *)
+Inductive int_tok : list Z -> Z -> Prop :=
+| IT_dec : forall n, - 2 ^ 63 <= n < 2 ^ 63 -> int_tok (dec n) n
+| IT_negzero : int_tok [45; 48] 0.
+
+Inductive denotes : list Z -> jval -> Prop :=
+| D_null : denotes [110; 117; 108; 108] JNull
+| D_true : denotes [116; 114; 117; 101] (JBool true)
+| D_false : denotes [102; 97; 108; 115; 101] (JBool false)
+| D_int : forall t n, int_tok t n -> denotes t (JI64 n)
+| D_str : forall items, Forall item_rfc items -> denotes (34 :: render_all items ++ [34]) (JStr (denote_all items))
+| D_arr0 : forall w, ws w -> denotes (91 :: w ++ [93]) (JArr [])
+| D_arr : forall ts l, elems ts l -> denotes (91 :: ts ++ [93]) (JArr l)
+| D_obj0 : forall w, ws w -> denotes (123 :: w ++ [125]) (JObj [])
+| D_obj : forall ts l, members ts l -> denotes (123 :: ts ++ [125]) (JObj l)
+(* ws value ws *( "," ws value ws ) *)
+with elems : list Z -> list jval -> Prop :=
+| E_one : forall w1 t v w2, ws w1 -> denotes t v -> ws w2 -> elems (w1 ++ t ++ w2) [v]
+| E_cons : forall w1 t v w2 ts l, ws w1 -> denotes t v -> ws w2 -> elems ts l ->
+    elems (w1 ++ t ++ w2 ++ 44 :: ts) (v :: l)
+(* ws string ws ":" ws value ws *( "," member ) *)
+with members : list Z -> list (list Z * jval) -> Prop :=
+| M_one : forall w1 items w2 w3 t v w4, ws w1 -> Forall item_rfc items -> ws w2 -> ws w3 -> denotes t v -> ws w4 ->
+    members (w1 ++ (34 :: render_all items ++ [34]) ++ w2 ++ 58 :: w3 ++ t ++ w4) [(denote_all items, v)]
+| M_cons : forall w1 items w2 w3 t v w4 ts l, ws w1 -> Forall item_rfc items -> ws w2 -> ws w3 -> denotes t v -> ws w4 ->
+    members ts l ->
+    members (w1 ++ (34 :: render_all items ++ [34]) ++ w2 ++ 58 :: w3 ++ t ++ w4 ++ 44 :: ts) ((denote_all items, v) :: l).
+
+Scheme denotes_mind := Minimality for denotes Sort Prop
+  with elems_mind := Minimality for elems Sort Prop
+  with members_mind := Minimality for members Sort Prop.
+Combined Scheme denotes_mutind from denotes_mind, elems_mind, members_mind.
